@@ -288,14 +288,16 @@ class PhasePredictor(QTable):
             while (line := f.readline()) :
                 psr, _, _, mjd_mid, dm, *_ = line.split()
                 rphase, f0, obs, span, ncoeff, freq, *_ = f.readline().split()
-                r_int, _, r_frac = rphase.partition(".")
+                # The reference phase is negative before the reference epoch.
+                r_sign = -1 if rphase.startswith("-") else 1
+                r_int, _, r_frac = rphase.lstrip("+-").partition(".")
 
                 coeffs = []
                 for _ in range(-(int(ncoeff) // -3)):
                     coeffs += f.readline().translate(d2e).split()
 
                 coeffs = np.array(coeffs, dtype=np.float64)
-                coeffs[0] += float("0." + r_frac)
+                coeffs[0] += r_sign * float("0." + r_frac)
                 coeffs[1] += float(f0) * 60
 
                 entry = PolycoEntry(
@@ -304,7 +306,7 @@ class PhasePredictor(QTable):
                     freq=float(freq) * u.MHz,
                     tmid=Time(mjd_mid, format="mjd", precision=9),
                     span=int(span) * u.min,
-                    rphase=np.int64("0" + r_int),
+                    rphase=r_sign * np.int64("0" + r_int),
                     poly=Polynomial(coeffs, domain=[-60, +60]).convert(),
                 )
 
